@@ -7,6 +7,8 @@ kernel (`decide`) checks the equalities over the whole (finite) domain.
   src/trait_.rs      Trait::from_path                                                     (C15)
   src/item.rs        Representation::parse, Representation::to_token                      (C04 C12)
   src/error.rs       the literal message of every `Error::*` constructor                  (C15 C16)
+  src/**/*.rs        the bare words of every `quote!`/`parse_quote!` template and `format_ident!` prefix, and the
+                     leading `::` of `util::path_from_strs`                                (C14: `srcWords_closed`)
 
 A table the code no longer has in the recognised shape, or whose content
 differs from the model's, is a broken proof obligation of the property."""
@@ -35,6 +37,7 @@ ERRS = {'visited': '.visited', 'crate_': '.crate_', 'none': '.none', 'empty': '.
 
 # optional groups: extracted independently; a group the source no longer has in the recognised shape claims nothing
 PATH_THEOREMS = ['traitPath_eq', 'supportsUnion_eq']
+WORD_THEOREMS = ['srcWords_closed', 'srcTemps_prefixed', 'pathFromStrs_rooted']
 
 THEOREMS = ['groupTraits_eq', 'groups_complete', 'traits_complete', 'ints_complete', 'traitSupported_eq', 'traitOfName_eq',
             'traitOfName_complete', 'traitOfName_asStr', 'groupOfName_eq', 'groupOfName_complete', 'reprOfName_eq',
@@ -153,11 +156,67 @@ def extract(repo):
     except (Missing, OSError, ValueError) as e:
         out['paths'] = None
         out['paths_reason'] = repr(e)
+    try:
+        out['words'], out['temps'], out['rooted'] = extract_words(repo)
+    except (Missing, OSError, ValueError, IndexError) as e:
+        out['words'] = None
+        out['words_reason'] = repr(e)
     return out
 
 
+def quote_bodies(src):
+    for m in re.finditer(r'\b(quote|quote_spanned|parse_quote|format_ident)!\s*([\{\(\[])', src):
+        o = m.group(2)
+        c = {'{': '}', '(': ')', '[': ']'}[o]
+        i, depth, instr = m.end(), 1, False
+        while i < len(src) and depth:
+            ch = src[i]
+            if instr:
+                if ch == '\\':
+                    i += 1
+                elif ch == '"':
+                    instr = False
+            elif ch == '"':
+                instr = True
+            elif ch == o:
+                depth += 1
+            elif ch == c:
+                depth -= 1
+            i += 1
+        yield m.group(1), src[m.end():i - 1]
+
+
+def extract_words(repo):
+    """The bare words (identifiers that are neither `#interpolations`, nor behind `::`, nor lifetimes) of every token
+    template of the source, and the literal prefixes of `format_ident!`."""
+    import glob
+    words, temps = set(), set()
+    for f in sorted(glob.glob(os.path.join(repo, 'src/**/*.rs'), recursive=True)):
+        if '/src/test/' in f or f.endswith('verif_hook.rs'):
+            continue
+        src = re.sub(r'//[^\n]*', '', open(f).read())
+        for kind, b in quote_bodies(src):
+            if kind == 'format_ident':
+                m = re.match(r'\s*"([^"{]*)', b)
+                if not m:
+                    raise Missing('format_ident! without a literal prefix in ' + f)
+                (temps if m.group(1).startswith('__') else words).add(m.group(1))
+                continue
+            if kind == 'quote_spanned':
+                b = b.split('=>', 1)[1]
+            b = re.sub(r'"(\\.|[^"\\])*"', '""', b)
+            for m in re.finditer(r'(#?)\b([A-Za-z_][A-Za-z0-9_]*)\b', b):
+                pre = b[:m.start()].rstrip()
+                if m.group(1) == '#' or pre.endswith('::') or pre.endswith("'"):
+                    continue
+                (temps if m.group(2).startswith('__') else words).add(m.group(2))
+    util = open(os.path.join(repo, 'src/util.rs')).read()
+    rooted = 'leading_colon: Some(' in body_of(util, 'pub fn path_from_strs')
+    return sorted(words), sorted(temps), rooted
+
+
 def lean_file(t):
-    L = ['import DW.Validate', 'import DW.Message', 'import DW.Render', 'import DW.Spec', '',
+    L = ['import DW.Validate', 'import DW.Message', 'import DW.Render', 'import DW.Spec', 'import DW.Lemmas.Vocab', '',
          '/-! Tables extracted from the Rust source on this run, and their equality with the model (kernel-checked). -/',
          'namespace DW.Extracted', 'open DW', '']
     L.append('def zcfg : Cfg := { safe := false, nightly := false, zeroize := true, zod := true }')
@@ -209,6 +268,18 @@ def lean_file(t):
               '/-- `TraitImpl::supports_union` of the source = the model\'s. -/',
               'theorem supportsUnion_eq : (allTraits.all fun t => unionTable t == Trait.supportsUnion t) = true := by decide +kernel']
         names += PATH_THEOREMS
+    if t.get('words') is not None:
+        L.append('def srcWords : List String := [%s]' % ', '.join(lean_str(w) for w in t['words']))
+        L.append('def srcTemps : List String := [%s]' % ', '.join(lean_str(w[2:]) for w in t['temps']))
+        L.append('def pathFromStrsLeading : Bool := %s' % ('true' if t['rooted'] else 'false'))
+        L += ['/-- Every bare word of the source\'s token templates is in the closed vocabulary of `C14_vocabulary` (or belongs to',
+              'the attribute macro\'s own output / is a single identifier spliced behind a `::` path). -/',
+              'theorem srcWords_closed : (srcWords.all fun w => decide (w ∈ fixedToks ++ stage1Toks ++ fragmentToks)) = true := by decide +kernel',
+              '/-- The other bare words are `__`-prefixed (listed here without the prefix). -/',
+              'theorem srcTemps_prefixed : ∀ w ∈ srcTemps, ∀ (U : String → Prop), Free U ("__" ++ w) := fun w _ U => free_prefix w',
+              '/-- `util::path_from_strs` sets the leading `::`. -/',
+              'theorem pathFromStrs_rooted : pathFromStrsLeading = true := by decide']
+        names += WORD_THEOREMS
     L += ['end DW.Extracted', ''] + ['#print axioms DW.Extracted.%s' % n for n in names]
     return '\n'.join(L)
 
@@ -221,6 +292,8 @@ def check(prop):
         # the source no longer has the tables in the recognised shape (a rewrite of these functions): nothing is claimed by
         # this route then -- the tables stay tied by correspondence A, whose enumerators cover every entry
         return None, repr(e)
+    if prop != 'C14':
+        t['words'] = None          # the vocabulary of the templates is C14's obligation only
     os.makedirs(runner.WORK, exist_ok=True)
     f = os.path.join(runner.WORK, 'Tables_%s.lean' % prop)
     open(f, 'w').write(lean_file(t))
@@ -231,7 +304,7 @@ def check(prop):
         return ['the tables extracted from the source differ from the model\'s (%s): %s' % (os.path.relpath(f, runner.VERIF), ' | '.join(errs)[:600])], 0
     bad = []
     global LAST_NAMES
-    LAST_NAMES = list(THEOREMS) + (PATH_THEOREMS if t.get('paths') else [])
+    LAST_NAMES = list(THEOREMS) + (PATH_THEOREMS if t.get('paths') else []) + (WORD_THEOREMS if t.get('words') is not None else [])
     for n in LAST_NAMES:
         m = re.search(r"'DW\.Extracted\.%s' (does not depend on any axioms|depends on axioms: \[([^\]]*)\])" % n, p.stdout)
         if not m:
